@@ -444,9 +444,51 @@ def r5(ctx):
         raise AnalysisBroken('C16.R5: no accepting return in UserList::checkSecret')
 
 
+def r6(ctx):
+    ctx.rule('C16.R6', 'an ACL entry replaces the level list stored for its user name: in UserList::addFromFile the list that '
+             'is stored into m_userLevels[name] is built from scratch (a fresh local, or the map entry is cleared first); '
+             'appending to the entry that is already in the map accumulates the levels of an earlier entry or of the '
+             '--accesslevel default', minimum=1)
+    fb = ctx.fb
+    fn = fb.fn('ebusd::UserList::addFromFile')
+    ctx.touch(fn)
+    # names bound to the map entry by reference
+    refs = set()
+    for nid, v in fn.nodes.items():
+        if v['k'] == 'DeclStmt':
+            for dd in v.get('decls', []):
+                if 'init' in dd and fn.key(dd['init']).startswith('this.m_userLevels[') and (dd.get('t') or '').rstrip().endswith('&'):
+                    refs.add(dd['name'])
+    n = 0
+    for nid, v in sorted(fn.nodes.items()):
+        if v['k'] != 'CXXOperatorCallExpr' or v.get('op') not in ('=', '+=') or not v.get('args'):
+            continue
+        tgt = fn.key(v['args'][0])
+        entry = tgt.startswith('this.m_userLevels[') or tgt in refs
+        if not entry:
+            continue
+        n += 1
+        if v['op'] == '=':
+            src = fn.key(v['args'][1])
+            # the assigned value: a local that was default constructed (or a literal)
+            fresh = any(dd.get('name') == src and 'init' in dd and fn.key(dd['init']) in ('std::basic_string{}', '""')
+                        for x, vv in fn.nodes.items() if vv['k'] == 'DeclStmt' for dd in vv.get('decls', [])) or src.startswith('"')
+            ctx.ob('C16.R6', fn, nid, fresh, 'store into m_userLevels', 'assigns %s, built from scratch: %s' % (src, fresh))
+        else:
+            clears = set(c for c in fn.all('CXXMemberCallExpr') if (fn.nodes[c].get('callee') or '').endswith('::clear') and
+                         fn.key(fn.nodes[c].get('obj', -1)) in (refs | {tgt}))
+            clears |= set(x for x, vv in fn.nodes.items() if vv['k'] == 'CXXOperatorCallExpr' and vv.get('op') == '=' and vv.get('args') and
+                          fn.key(vv['args'][0]) in (refs | {tgt}) and fn.key(vv['args'][1]) in ('""', 'std::basic_string{}'))
+            dirty = fn.reaches_point(fn.entry, fn.pos(nid), clears)
+            ctx.ob('C16.R6', fn, nid, not dirty, 'append to the stored level list', 'entry emptied before on every path: %s' % (not dirty))
+    if n < 1:
+        raise AnalysisBroken('C16.R6: no store into m_userLevels found in UserList::addFromFile')
+
+
 def run(ctx):
     r1(ctx)
     r2(ctx)
     r3(ctx)
     r4(ctx)
     r5(ctx)
+    r6(ctx)
